@@ -20,10 +20,10 @@ namespace etl {
 template <typename RandomIt, typename Compare>
 constexpr auto bubble_sort(RandomIt first, RandomIt last, Compare comp) -> void
 {
-    for (auto i = first; i != last; ++i) {
-        for (auto j = first; j < i; ++j) {
-            if (comp(*i, *j)) {
-                etl::iter_swap(i, j);
+    for (auto end = last; end != first; --end) {
+        for (auto j = first; j + 1 < end; ++j) {
+            if (comp(*(j + 1), *j)) {
+                etl::iter_swap(j, j + 1);
             }
         }
     }
